@@ -1,15 +1,17 @@
 (** C11 — cached results are reused exactly for requests equal in all they depend on.
-    Property theorems only; proofs are in C11/Proofs.v, the model in C11/Model.v,
-    the guards of the recorded findings in C11/Spec.v.
+    Property theorems only; proofs are in C11/Proofs.v, Proofs2.v (pipeline mechanisms) and
+    Proofs3.v (token, finalizer, RFC 7234 and key caches), the models in C11/Model.v and
+    Model2.v, the guards of the recorded findings in C11/Spec.v and Spec2.v.
 
     SHA-256 is a parameter [H] of every statement (keys are [hex (H pre-image)]
     with the pre-image reproduced byte for byte); statements that need keys to
     differ assume [injective H] explicitly, nothing else is assumed about it.
 
-    [fx : fixes] selects the code: [fx_none] is the tree as it is, [fx1 fx2 fx3]
-    switch on the candidate repairs fixes/C11-F1.diff (maps hashed in key order),
-    C11-F2.diff (cached introspection response re-validated), C11-F3.diff
-    (expressions verified on a hit). *)
+    [fx : fixes] selects the code: [fx_all6] is the tree as it is (/repo 0b950ef: the repairs
+    F1 9b4883e, F2 deaddf0, F3 abe584c, F10 abc25e7, F6 0b950ef are committed); [fx_none] is the
+    tree before these commits; [fx_all] = before 0b950ef; [fx_pre10] = before abc25e7.
+    Naming: [..._refuted] = witness of an OPEN finding, stated about the code as it is;
+    [..._pinned_refuted] = witness of a repaired finding, stated about the code before the named commit. *)
 From Coq Require Import Permutation.
 From HV Require Import Base.Prelude C11.Model C11.Spec C11.Model2 C11.Spec2 C11.Proofs C11.Proofs2 C11.Proofs3.
 
@@ -42,19 +44,21 @@ Theorem C11_key_deterministic : forall fx H i q ho ho' vo vo',
 Proof. exact key_deterministic. Qed.
 Print Assumptions C11_key_deterministic.
 
-(** C11-F1: with two endpoint headers two iteration orders give two keys for one request *)
-Theorem C11_F1_refuted :
+(** C11-F1, code before 9b4883e: with two endpoint headers two iteration orders give two keys for one request *)
+Theorem C11_F1_pinned_refuted :
   exists i q ho ho',
     order_free i = false /\ valid_orders i ho [] /\ valid_orders i ho' [] /\
     forall H, (forall a b, H a = H b -> a = b) -> cache_key fx_none H ho [] i q <> cache_key fx_none H ho' [] i q.
 Proof. exact F1_refuted. Qed.
-Print Assumptions C11_F1_refuted.
+Print Assumptions C11_F1_pinned_refuted.
 
 (** Key injectivity (no request receives a result computed for different
     inputs): for a collision-free SHA-256, two look-ups of well-formed instances
     that use the same key have the same key components — mechanism kind, endpoint
     (url, method, headers, authentication strategy), credential or (id, forwarded
-    names, rendered payload, ttl, subject JSON) and rendered values — whatever the
+    names, rendered payload, ttl, subject JSON) and rendered values (the forwarded VALUES and the
+    authenticator's payload template, in the key since 0b950ef, are not part of [components]: that
+    equal keys imply equal forwarded values is lemma fx6_no_F6, used by the transparency theorem) — whatever the
     iteration orders, unless their pre-images can be shifted against each other
     (guard of C11-F4) *)
 Theorem C11_key_injective : forall fx H a b k,
@@ -85,8 +89,8 @@ Theorem C11_cache_transparent : forall fx H w h,
 Proof. exact cache_transparent. Qed.
 Print Assumptions C11_cache_transparent.
 
-(** the same for the tree with the three candidate repairs: no request is
-    validated under a different rule's policy any more, whatever the instances *)
+(** the instance [fx := fx_all] of the theorem above, the tree before 0b950ef (F1, F2, F3, F10 repaired,
+    F6 open): no request is validated under a different rule's policy, whatever the instances *)
 Theorem C11_cache_transparent_repaired : forall H w h,
   (forall x y, H x = H y -> x = y) -> wf_history h ->
   g_F4 fx_all H h = false -> g_F6 fx_all H h = false -> g_F7 fx_all H h = false ->
@@ -168,42 +172,48 @@ Theorem C11_stored_entry_is_returned : forall fx H w c a l2 b k r,
 Proof. exact stored_entry_is_returned. Qed.
 Print Assumptions C11_stored_entry_is_returned.
 
-(** the recorded findings, each with a concrete two-request history on which
-    the cache changes the decision, for every SHA-256 *)
-Theorem C11_F2_refuted :
+(** the recorded findings, each with a concrete two-request history on which the cache changes the
+    decision, for every SHA-256.  Open: F4 and F7 (stated for [fx_all6], the code as it is).
+    Repaired ([_pinned_refuted], stated for the code before the commit): F2, F3, F6, F10. *)
+(** C11-F2, code before deaddf0 *)
+Theorem C11_F2_pinned_refuted :
   exists w a b, (forall H, g_F2 fx_none H [a; b] = true) /\ step_orders_valid a /\ step_orders_valid b /\
     forall H, map sr_out (run_cached fx_none H w [] [a; b]) <> map fst (run_fresh w [a; b]).
 Proof. exact F2_refuted. Qed.
-Print Assumptions C11_F2_refuted.
+Print Assumptions C11_F2_pinned_refuted.
 
-Theorem C11_F3_refuted :
+(** C11-F3, code before abe584c *)
+Theorem C11_F3_pinned_refuted :
   exists w a b, (forall H, g_F3 fx_none H [a; b] = true) /\ step_orders_valid a /\ step_orders_valid b /\
     forall H, map sr_out (run_cached fx_none H w [] [a; b]) <> map fst (run_fresh w [a; b]).
 Proof. exact F3_refuted. Qed.
-Print Assumptions C11_F3_refuted.
+Print Assumptions C11_F3_pinned_refuted.
 
+(** C11-F4 (open), the code as it is *)
 Theorem C11_F4_history_refuted :
-  exists w a b, (forall H, g_F4 fx_none H [a; b] = true) /\ step_orders_valid a /\ step_orders_valid b /\
-    forall H, map sr_out (run_cached fx_none H w [] [a; b]) <> map fst (run_fresh w [a; b]).
+  exists w a b, (forall H, g_F4 fx_all6 H [a; b] = true) /\ step_orders_valid a /\ step_orders_valid b /\
+    forall H, map sr_out (run_cached fx_all6 H w [] [a; b]) <> map fst (run_fresh w [a; b]).
 Proof. exact F4_history_refuted. Qed.
 Print Assumptions C11_F4_history_refuted.
 
-(* pinned witness: the key layout before 0b950ef ([fx_none]); with [fx6] the guard of C11-F6 cannot fire (fx6_no_F6) *)
-Theorem C11_F6_refuted :
+(** C11-F6, code before 0b950ef; with [fx6] the guard of C11-F6 cannot fire (fx6_no_F6) *)
+Theorem C11_F6_pinned_refuted :
   exists w a b, (forall H, g_F6 fx_none H [a; b] = true) /\ step_orders_valid a /\ step_orders_valid b /\
     forall H, map sr_out (run_cached fx_none H w [] [a; b]) <> map fst (run_fresh w [a; b]).
 Proof. exact F6_refuted. Qed.
-Print Assumptions C11_F6_refuted.
+Print Assumptions C11_F6_pinned_refuted.
 
-Theorem C11_F10_refuted :
-  exists w a b, (forall H, g_F10 fx_now H [a; b] = true) /\ step_orders_valid a /\ step_orders_valid b /\
-    forall H, map sr_out (run_cached fx_now H w [] [a; b]) <> map fst (run_fresh w [a; b]).
+(** C11-F10, code before abc25e7 *)
+Theorem C11_F10_pinned_refuted :
+  exists w a b, (forall H, g_F10 fx_pre10 H [a; b] = true) /\ step_orders_valid a /\ step_orders_valid b /\
+    forall H, map sr_out (run_cached fx_pre10 H w [] [a; b]) <> map fst (run_fresh w [a; b]).
 Proof. exact F10_refuted. Qed.
-Print Assumptions C11_F10_refuted.
+Print Assumptions C11_F10_pinned_refuted.
 
+(** C11-F7 (open), the code as it is *)
 Theorem C11_F7_refuted :
-  exists w a b, (forall H, g_F7 fx_none H [a; b] = true) /\ step_orders_valid a /\ step_orders_valid b /\
-    forall H, map sr_out (run_cached fx_none H w [] [a; b]) <> map fst (run_fresh w [a; b]).
+  exists w a b, (forall H, g_F7 fx_all6 H [a; b] = true) /\ step_orders_valid a /\ step_orders_valid b /\
+    forall H, map sr_out (run_cached fx_all6 H w [] [a; b]) <> map fst (run_fresh w [a; b]).
 Proof. exact F7_refuted. Qed.
 Print Assumptions C11_F7_refuted.
 
@@ -218,6 +228,7 @@ Theorem C11_cc_cache_transparent : forall H h,
 Proof. exact cc_cache_transparent. Qed.
 Print Assumptions C11_cc_cache_transparent.
 
+(** C11-F4 (open) in the client-credentials token cache *)
 Theorem C11_cc_F4_refuted :
   exists a b, g_cc_F4 [a; b] = true /\
     forall H, map sr_out (cc_run H [] [a; b]) <> map (fun c => OAllow (cc_result c)) [a; b].
@@ -237,11 +248,12 @@ Theorem C11_jf_cache_transparent : forall fx5 H kc s h,
 Proof. exact jf_cache_transparent. Qed.
 Print Assumptions C11_jf_cache_transparent.
 
-Theorem C11_F5_refuted :
+(** C11-F5, code before d9caf75 ([fx5 = false]) *)
+Theorem C11_F5_pinned_refuted :
   exists kc s h, g_F5 kc s h = true /\
     forall H, map (fun m => sr_out (fst m)) (jrun false H kc s [] h) <> map snd (jrun false H kc s [] h).
 Proof. exact F5_refuted. Qed.
-Print Assumptions C11_F5_refuted.
+Print Assumptions C11_F5_pinned_refuted.
 
 (** RFC 7234 cache (endpoint option http_cache): for every history of requests to any
     endpoints (url, method, Authorization) outside the guards of C11-F4 (url | method |
@@ -255,30 +267,34 @@ Proof. exact hc_cache_transparent. Qed.
 Print Assumptions C11_hc_cache_transparent.
 
 (** the code since 12fdf68 (only GET/HEAD looked up and stored, no response with Vary stored):
-    the guards of F8 and F9 are not needed *)
+    the guards of F8 and F9 are not needed.  The model of the RFC 7234 cache is faithful for the methods
+    GET, HEAD and POST (the code stores and looks up GET/HEAD only; the model treats exactly "POST" as the
+    other case and ignores the body of other methods) *)
 Theorem C11_hc_cache_transparent_repaired : forall H w h,
   (forall x y, H x = H y -> x = y) -> g_hc_F4 h = false ->
   map sr_out (hc_run true H w [] h) = map (fun x => OAllow (hc_result w (fst x) (snd x))) h.
 Proof. exact hc_cache_transparent_repaired. Qed.
 Print Assumptions C11_hc_cache_transparent_repaired.
 
-Theorem C11_F8_refuted :
+(** C11-F8, code before 12fdf68 ([fx8 = false]) *)
+Theorem C11_F8_pinned_refuted :
   exists w a b, g_F8 false w [a; b] = true /\
     forall H, map sr_out (hc_run false H w [] [a; b]) <> map (fun x => OAllow (hc_result w (fst x) (snd x))) [a; b].
 Proof. exact F8_refuted. Qed.
-Print Assumptions C11_F8_refuted.
+Print Assumptions C11_F8_pinned_refuted.
 
-Theorem C11_F9_refuted :
+(** C11-F9, code before 12fdf68 ([fx8 = false]) *)
+Theorem C11_F9_pinned_refuted :
   exists w a b, g_F9 false w [a; b] = true /\ g_F8 false w [a; b] = false /\
     forall H, map sr_out (hc_run false H w [] [a; b]) <> map (fun x => OAllow (hc_result w (fst x) (snd x))) [a; b].
 Proof. exact F9_refuted. Qed.
-Print Assumptions C11_F9_refuted.
+Print Assumptions C11_F9_pinned_refuted.
 
 (** Key cache of the jwt authenticator: for every history of tokens at any instances — any
     claimed issuers, key ids and signing keys, templated or literal JWKS URL — a token is
     verified with the cache exactly as without it (with the key published at the JWKS URL
     rendered for this token's issuer, validated as this instance demands), unless two
-    pre-images collide (F4) or — without the candidate repair [fx11] — two instances that
+    pre-images collide (F4) or — without the repair d20d7cd [fx11] — two instances that
     differ in validate_jwk share a key (guard of C11-F11) *)
 Theorem C11_jk_cache_transparent : forall fx11 H w h,
   (forall x y, H x = H y -> x = y) -> g_jk_F4 H h = false -> (fx11 = true \/ g_F11 H h = false) ->
@@ -286,8 +302,9 @@ Theorem C11_jk_cache_transparent : forall fx11 H w h,
 Proof. exact jk_cache_transparent. Qed.
 Print Assumptions C11_jk_cache_transparent.
 
-Theorem C11_F11_refuted :
+(** C11-F11, code before d20d7cd ([fx11 = false]) *)
+Theorem C11_F11_pinned_refuted :
   exists w a b, (forall H, g_F11 H [a; b] = true) /\
     forall H, map sr_out (jk_run false H w [] [a; b]) <> map (fun x => jk_fresh w (fst x) (snd x)) [a; b].
 Proof. exact F11_refuted. Qed.
-Print Assumptions C11_F11_refuted.
+Print Assumptions C11_F11_pinned_refuted.
